@@ -21,7 +21,7 @@ def st(name, nq, nt, variant=""):
 P = "Zog.Props."
 COMMON = [P + "facts_ok", P + "engine_is_spec"]
 # cross-cutting regenerated facts: obligations of every property whose clauses rely on them
-POOLED = [P + "recycled_objects_start_clean"]      # nothing survives in recycled contexts / issues / path builders
+POOLED = [P + "recycled_objects_start_clean", P + "ctx_carries_only_managed_state"]      # nothing survives in recycled contexts / issues / path builders
 READONLY = [P + "executions_write_no_schema", P + "closures_are_stateless"]  # schemas and their closures keep no state
 
 PROPS = {
